@@ -8,6 +8,7 @@ package main
 //	create[-after-unload] <id> <type> <seedTag> <label|-> <n> <enc 0|1> <pw> <temp 0|1>
 //	newaddr <id> <n> <pw>        scan <id> <n> <keep> <keepChg> <pw>       label <id> <label>
 //	encrypt <id> <pw>            decrypt <id> <pw>                         recover <id> <seedTag> <pw>
+//	restart                      the service under test is replaced by a new wallet.NewService on the same directory
 //	unload <id>                  update <id> <label|FAIL>                  updsec <id> <pw> <label|FAIL>
 //
 // pw: 0 = no password, k = "pw<k>".  Output: `<ok|err Kind> mem=<dump> disk=<dump|ERR>`,
@@ -287,6 +288,14 @@ func c19Exec(op string) string {
 		return res(err)
 	case "unload":
 		return res(s.serv.UnloadWallet(f[1]))
+	case "restart":
+		// the service under test itself is restarted: a new wallet.NewService on the populated directory receives
+		// the following operations (its duplicate / name checks rest on what it loaded, not on what it created)
+		s2, err := wallet.NewService(cfg(s.dir))
+		if err == nil {
+			s.serv = s2
+		}
+		return res(err)
 	case "seed":
 		_, _, err := s.serv.GetWalletSeed(f[1], pwOf(f[2]))
 		return res(err)
@@ -355,6 +364,7 @@ func c19Gen(r *Rng, tier string, emit func(string)) {
 		emit(fmt.Sprintf("reset %d", r.Intn(1000000)))
 		mem := map[string]*gw{}
 		unloadedSeeds := map[string]bool{}
+		unl := map[string]*gw{} // unloaded wallets whose file is still in the directory
 		ids := []string{"w0.wlt", "w1.wlt", "w2.wlt", "w3.wlt"}
 		nops := 5 + r.Intn(36)
 		pick := func() string { return ids[r.Intn(len(ids))] }
@@ -381,6 +391,43 @@ func c19Gen(r *Rng, tier string, emit func(string)) {
 		}
 		ended := false
 		for i := 0; i < nops && !ended; i++ {
+			if r.Chance(7) {
+				// restart; the new instance must know every wallet it loaded: creates (persistent and temporary) with the
+				// seed of a loaded wallet of every type must be refused, with a free seed accepted
+				emit("restart")
+				for id, w := range mem {
+					if w.temp {
+						delete(mem, id)
+					}
+				}
+				for id, w := range unl {
+					mem[id] = w
+				}
+				unl = map[string]*gw{}
+				unloadedSeeds = map[string]bool{}
+				var held []string
+				for id := range mem {
+					held = append(held, id)
+				}
+				sort.Strings(held)
+				for _, hid := range held {
+					w := mem[hid]
+					if w.typ == "collection" || !r.Chance(70) {
+						continue
+					}
+					free := ""
+					for _, id := range ids {
+						if mem[id] == nil && unl[id] == nil {
+							free = id
+						}
+					}
+					if free == "" {
+						free = pick()
+					}
+					emit(fmt.Sprintf("create %s %s %s L%d %d 0 0 %d", free, w.typ, w.seed, r.Intn(9), r.Intn(3), r.Intn(2)))
+				}
+				continue
+			}
 			switch r.Intn(14) {
 			case 0, 1, 2:
 				id := pick()
@@ -432,6 +479,9 @@ func c19Gen(r *Rng, tier string, emit func(string)) {
 						e = pw
 					}
 					mem[id] = &gw{typ, seed, e, temp == 1}
+					if temp == 0 {
+						delete(unl, id) // the file of an unloaded wallet of that name is overwritten
+					}
 				}
 			case 3, 4:
 				id := pickMem()
@@ -494,6 +544,7 @@ func c19Gen(r *Rng, tier string, emit func(string)) {
 				if w := mem[id]; w != nil {
 					if !w.temp {
 						unloadedSeeds[w.typ+"-"+w.seed] = true
+						unl[id] = w
 					}
 					delete(mem, id)
 				}
